@@ -78,7 +78,13 @@ func (o TOpts) zopts() []z.TestOption {
 		out = append(out, z.IssuePath(*o.Path))
 	}
 	if o.Msg != nil {
-		out = append(out, z.Message(*o.Msg))
+		if len(*o.Msg)%2 == 1 {
+			// the same option spelled as a MessageFunc
+			msg := *o.Msg
+			out = append(out, z.MessageFunc(func(e *z.ZogIssue, _ z.Ctx) { e.SetMessage(msg) }))
+		} else {
+			out = append(out, z.Message(*o.Msg))
+		}
 	}
 	if o.HasParams {
 		m := map[string]any{}
@@ -188,6 +194,63 @@ func postFn(n *Node, ps PostSpec, rec *Recorder) z.PostTransform {
 
 func reqOpts(n *Node) []z.TestOption { return n.Req.zopts() }
 
+// NamedCoercer: the custom coercers of the case language (mirrored by Wire.namedCoercer on the Lean side)
+func NamedCoercer(name string) func(any) (any, error) {
+	switch name {
+	case "plus100":
+		return func(v any) (any, error) {
+			// bounded so that the table function itself never overflows
+			if n, ok := v.(int); ok && n > -1000000000000 && n < 1000000000000 {
+				return n + 100, nil
+			}
+			return nil, fmt.Errorf("plus100: unsupported")
+		}
+	case "strlen":
+		return func(v any) (any, error) {
+			if s, ok := v.(string); ok {
+				return len(s), nil
+			}
+			return nil, fmt.Errorf("strlen: unsupported")
+		}
+	case "sfx":
+		return func(v any) (any, error) {
+			if s, ok := v.(string); ok {
+				return s + "~", nil
+			}
+			return nil, fmt.Errorf("sfx: unsupported")
+		}
+	case "yn":
+		return func(v any) (any, error) {
+			switch v {
+			case "y":
+				return true, nil
+			case "n":
+				return false, nil
+			}
+			return nil, fmt.Errorf("yn: unsupported")
+		}
+	case "csv":
+		return func(v any) (any, error) {
+			switch x := v.(type) {
+			case string:
+				return strings.Split(x, ","), nil
+			case []any:
+				return x, nil
+			}
+			return nil, fmt.Errorf("csv: unsupported")
+		}
+	}
+	panic("NamedCoercer " + name)
+}
+
+// schemaOpts: constructor options of a primitive / slice node
+func schemaOpts(n *Node) []z.SchemaOption {
+	if n.Coercer != "" && !n.CoercerViaPtr {
+		return []z.SchemaOption{z.WithCoercer(NamedCoercer(n.Coercer))}
+	}
+	return nil
+}
+
 func numOf[T int | int32 | int64 | float64 | float32](d D) T {
 	if d.K == "f" {
 		return T(d.F)
@@ -244,6 +307,14 @@ func buildNum[T int | int32 | int64 | float64 | float32](s *z.NumberSchema[T], n
 	return s
 }
 
+// floatCtor: z.Float is the deprecated spelling of z.Float64
+func floatCtor(n *Node) *z.NumberSchema[float64] {
+	if len(n.Tests)%2 == 1 {
+		return z.Float()
+	}
+	return z.Float64()
+}
+
 // Build constructs the real zog schema for a node through the public builder API.
 func Build(n *Node, rec *Recorder) z.ZogSchema {
 	if s, ok := rec.Built[n]; ok {
@@ -259,7 +330,7 @@ func build1(n *Node, rec *Recorder) z.ZogSchema {
 	case "prim":
 		switch n.PK {
 		case "str":
-			s := z.String()
+			s := z.String(schemaOpts(n)...)
 			if n.Req != nil {
 				s.Required(reqOpts(n)...)
 			}
@@ -325,17 +396,17 @@ func build1(n *Node, rec *Recorder) z.ZogSchema {
 			}
 			return s
 		case "int":
-			return buildNum(z.Int(), n, rec)
+			return buildNum(z.Int(schemaOpts(n)...), n, rec)
 		case "i32":
 			return buildNum(z.Int32(), n, rec)
 		case "i64":
 			return buildNum(z.Int64(), n, rec)
 		case "f64":
-			return buildNum(z.Float64(), n, rec)
+			return buildNum(floatCtor(n), n, rec)
 		case "f32":
 			return buildNum(z.Float32(), n, rec)
 		case "bool":
-			s := z.Bool()
+			s := z.Bool(schemaOpts(n)...)
 			if n.Req != nil {
 				s.Required(reqOpts(n)...)
 			}
@@ -378,6 +449,8 @@ func build1(n *Node, rec *Recorder) z.ZogSchema {
 			}
 			if n.Req != nil {
 				s.Required(reqOpts(n)...)
+			} else if len(n.Tests)%2 == 0 {
+				s.Required().Optional() // last call wins
 			}
 			if n.Dflt != nil {
 				s.Default(n.Dflt.T)
@@ -413,9 +486,11 @@ func build1(n *Node, rec *Recorder) z.ZogSchema {
 			return s
 		}
 	case "slice":
-		s := z.Slice(Build(n.Elem, rec))
+		s := z.Slice(Build(n.Elem, rec), schemaOpts(n)...)
 		if n.Req != nil {
 			s.Required(reqOpts(n)...)
+		} else if len(n.Tests)%2 == 0 {
+			s.Required().Optional() // last call wins
 		}
 		if n.SliceDfltD != nil {
 			// the default is a Go slice of the destination type
@@ -455,6 +530,9 @@ func build1(n *Node, rec *Recorder) z.ZogSchema {
 		return buildPre(n, rec)
 	case "ptr":
 		s := z.Ptr(Build(n.Elem, rec))
+		if n.Elem.Coercer != "" && n.Elem.CoercerViaPtr {
+			z.WithCoercer(NamedCoercer(n.Elem.Coercer))(s) // Ptr passes the coercer through to the pointed-to schema
+		}
 		if n.NotNil != nil {
 			s.NotNil(n.NotNil.zopts()...)
 		}
@@ -475,6 +553,12 @@ func build1(n *Node, rec *Recorder) z.ZogSchema {
 			}
 		}
 		s := z.Struct(sch)
+		switch len(n.Fields) % 3 { // deprecated no-ops
+		case 0:
+			s = s.Required()
+		case 1:
+			s = s.Optional()
+		}
 		for _, t := range n.Tests {
 			if t.Name != "fn" {
 				panic("struct test " + t.Name)
